@@ -67,7 +67,7 @@ func init() {
 	forge := func(id, what, class string, probes []string) {
 		kit.Register(&kit.PropertySpec{
 			ID: id, Engine: "netsim",
-			Profiles:  []kit.ProfileSpec{{Name: "forge", Weight: 1}},
+			Profiles:  forgeProfiles(id),
 			QuickRuns: 240, QuickBudgetS: 60, ThoroughRuns: 20000, ThoroughBudgetS: 900,
 			Rule: "cluster runs with 1-2 Byzantine validators (f < n/3) that are real nodes behind an adversarial proxy: whenever a Byzantine validator is the legitimate proposer the proxy may swap its block for a forged one (" + what + "), re-signs proposal and block parts and votes for the forgery; network faults as in the net profile. " +
 				"Oracle: a correct validator that signs a non-nil vote for a forged part set has accepted the block at import; that must never happen for a forgery the harness' own verifier judges invalid (class " + class + "). " +
@@ -101,4 +101,12 @@ func init() {
 		LevelNote: "covers the reporting side (dsmLog -> SendDoubleSignReport); the transaction-acceptance side (DSR transaction PreValidate / DSRHandler) is outside this engine",
 		Technique: "deterministic simulation with Byzantine equivocation and duplication faults, independent evidence decoder as oracle, tape minimisation and replay",
 	})
+}
+
+func forgeProfiles(id string) []kit.ProfileSpec {
+	if id == "C05" {
+		// the fast-sync entry: a laggard validator catching up through a lying fast-sync server
+		return []kit.ProfileSpec{{Name: "forge", Weight: 3}, {Name: "fastsync", Weight: 2}}
+	}
+	return []kit.ProfileSpec{{Name: "forge", Weight: 1}}
 }
